@@ -13,6 +13,7 @@ mod stats;
 mod robust;
 mod conv;
 mod mc;
+mod diag;
 
 use common::Out;
 use std::io::Write;
